@@ -402,6 +402,75 @@ def param_scenario(kind):
   return scenario
 
 
+def extract_scenario(kind):
+  """estimate.extract_model_operations (the estimator behind print_qstats) on a one-layer model: number_of_operations
+  is the MAC count of the layer for all symbolic geometries.  unfold_model / create_activation_cache /
+  get_operation_type / get_quant_mode are replaced by trivial contracts (they do not touch the count); the layer is a
+  stub whose input tensor, compute_output_shape and get_weights follow the stock Keras layer (K4)."""
+  def scenario(ip):
+    s = Scen()
+    f = ip.find("qkeras/estimate.py::extract_model_operations")
+    S = lambda v: SNum(v, "int")
+    ip.overrides["qkeras.bn_folding_utils::unfold_model"] = lambda ip_, fv, a, k: a[0]
+    ip.overrides["qkeras.estimate::create_activation_cache"] = lambda ip_, fv, a, k: {}
+    ip.overrides["qkeras.estimate::get_operation_type"] = lambda ip_, fv, a, k: ("mult", 4, 4, 8)
+    ip.overrides["qkeras.estimate::get_quant_mode"] = lambda ip_, fv, a, k: (0, 4, 1)
+    nq = 2
+    if kind == "QConv2D":
+      hi, wi, ci, ho, wo, co, kh, kw = ints(ip, s, ["Hi", "Wi", "Ci", "Ho", "Wo", "Co", "Kh", "Kw"])
+      ishape, oshape = (None, S(hi), S(wi), S(ci)), (None, S(ho), S(wo), S(co))
+      ws = [(S(kh), S(kw), S(ci), S(co)), (S(co),)]
+      spec = ho * wo * co * kh * kw * ci
+    elif kind == "QConv1D":
+      ti, ci, to, co, k = ints(ip, s, ["Ti", "Ci", "To", "Co", "K"])
+      ishape, oshape = (None, S(ti), S(ci)), (None, S(to), S(co))
+      ws = [(S(k), S(ci), S(co)), (S(co),)]
+      spec = to * co * k * ci
+    elif kind == "QDepthwiseConv2D":
+      hi, wi, ci, dm, ho, wo, kh, kw = ints(ip, s, ["Hi", "Wi", "Ci", "depth_multiplier", "Ho", "Wo", "Kh", "Kw"])
+      ishape, oshape = (None, S(hi), S(wi), S(ci)), (None, S(ho), S(wo), SNum(ci * dm, "int"))
+      ws = [(S(kh), S(kw), S(ci), S(dm)), (SNum(ci * dm, "int"),)]
+      spec = ho * wo * kh * kw * ci * dm
+    elif kind == "QSeparableConv2D":
+      hi, wi, ci, ho, wo, co, kh, kw = ints(ip, s, ["Hi", "Wi", "Ci", "Ho", "Wo", "Co", "Kh", "Kw"])
+      ishape, oshape = (None, S(hi), S(wi), S(ci)), (None, S(ho), S(wo), S(co))
+      ws = [(S(kh), S(kw), S(ci), 1), (1, 1, S(ci), S(co)), (S(co),)]
+      spec = ho * wo * kh * kw * ci + ho * wo * ci * co          # depthwise pass + 1x1 pointwise pass
+      nq = 3
+    elif kind == "QSeparableConv1D":
+      ti, ci, to, co, k = ints(ip, s, ["Ti", "Ci", "To", "Co", "K"])
+      ishape, oshape = (None, S(ti), S(ci)), (None, S(to), S(co))
+      ws = [(S(k), S(ci), 1), (1, S(ci), S(co)), (S(co),)]
+      spec = to * k * ci + to * ci * co
+      nq = 3
+    else:
+      raise ValueError(kind)
+    tin = Obj(ExtClass("Tensor"), {"experimental_ref": Builtin("experimental_ref", lambda ip_: "ref_in"),
+                                   "get_shape": Builtin("get_shape", lambda ip_: ishape)})
+    tout = Obj(ExtClass("Tensor"), {"experimental_ref": Builtin("experimental_ref", lambda ip_: "ref_out")})
+    weights = [Obj(ExtClass("ndarray"), {"shape": w}) for w in ws]
+    quant = Obj(ExtClass("quantized_bits"), {"bits": 4})
+    layer = Obj(ExtClass(kind), {"name": "layer0", "input": tin, "output": tout,
+                                 "compute_output_shape": Builtin("compute_output_shape", lambda ip_, shp: oshape),
+                                 "get_weights": Builtin("get_weights", lambda ip_: list(weights)),
+                                 "get_quantizers": Builtin("get_quantizers", lambda ip_: [quant] * nq)})
+    inp = Obj(ExtClass("InputLayer"), {"name": "in0"})
+    model = Obj(ExtClass("Model"), {"layers": [inp, layer]})
+    r = run_call(ip, f, [model])
+    s.claim("no_raise", r[0] == "return")
+    if r[0] != "return":
+      s.info["raised"] = str(r[1])
+      return s
+    ops = r[1]
+    s.claim("layer_reported", list(ops.keys()) == ["layer0"])
+    if "layer0" not in ops:
+      return s
+    s.claim("count", Q.num_value(ops["layer0"]["number_of_operations"]) == z3.ToReal(spec))
+    s.replay = {"kind": kind}
+    return s
+  return scenario
+
+
 def bounds(vars_):
   return [v <= 6 for k, v in vars_.items()]
 
@@ -429,6 +498,11 @@ def cases(tier):
                                                             "parameter_read_energy replaced by their contracts (non-negative "
                                                             "value per call) inside energy_estimate",
                                                             "float('{0:.2f}'.format(x)) is x rounded to two decimals"]))
+  for k in ("QConv2D", "QConv1D", "QDepthwiseConv2D", "QSeparableConv2D", "QSeparableConv1D"):
+    out.append(Case(PROP, "qkeras/estimate.py::extract_model_operations", k, extract_scenario(k), bounds=bounds,
+                    replay_kind="c19_extract", assumptions=ASSUME + [
+                        "unfold_model / create_activation_cache / get_operation_type / get_quant_mode replaced by "
+                        "trivial contracts inside extract_model_operations"]))
   for k in ("dense_bias", "dense_nobias", "bn_all", "bn_partial", "other"):
     out.append(Case(PROP, QE + "parameter_read_energy", k, param_scenario(k), replay_kind=None,
                     assumptions=ASSUME + ["memory_read_energy replaced by its contract inside parameter_read_energy"]))
